@@ -13,7 +13,8 @@ from typing import Any, Dict, Iterator, List, Optional, Sequence, Tuple
 from ..minterp import AssertionFailed, Interp, ModelError, Obj, Opaque, PyRaise, Sym, Unsupported
 from ..model import AnchorError, Program
 
-ERROR_CODES = ("code_a", "code_b")
+ERROR_CODES = ("code_a", "code_b", "code_off")
+DEFAULT_OFF = ("code_off",)  # an error code that is disabled by default (like missing_f / use_fstrings)
 MODULES: Tuple[Tuple[str, ...], ...] = ((), ("a",), ("a", "b"), ("a", "c"), ("ab",), ("a", "b", "c"))
 OVERRIDE_PREFIXES = (("a",), ("a", "b"))
 
@@ -39,6 +40,8 @@ class ConfigModel:
         self.method_defs[("Options", "_get_value_for_no_default")] = f("Options._get_value_for_no_default")
         self.method_defs[("Options", "for_module")] = f("Options.for_module")
         self.method_defs[("Options", "is_error_code_enabled")] = f("Options.is_error_code_enabled")
+        # how the command line becomes option instances
+        self.prepare = prog.func("name_check_visitor", "NameCheckVisitor.prepare_constructor_kwargs")
         # dataclass field defaults of ConfigOption, read from the class body
         ci = prog.cls("ConfigOption")
         self.field_defaults: Dict[str, Any] = {}
@@ -56,7 +59,7 @@ class ConfigModel:
 
     # ---------------------------------------------------------------- classes
     def _option_class(self, kind: str, name: str, default: Any) -> Obj:
-        cls = Obj(kind, name=name, default_value=default)
+        cls = Obj(kind, name=name, default_value=default, should_create_command_line_option=True)
 
         def construct(*args: Any, **kwargs: Any) -> Obj:
             vals = dict(self.field_defaults)
@@ -78,11 +81,47 @@ class ConfigModel:
             "names": self._option_class("ListCls", "names", []),
         }
         for c in ERROR_CODES:
-            reg[c] = self._option_class("BoolCls", c, True)  # error codes enabled by default
+            reg[c] = self._option_class("BoolCls", c, c not in DEFAULT_OFF)  # error codes are enabled by default, except the opt-in ones
         return reg
 
     # ------------------------------------------------------------------- run
-    def effective(self, files: Sequence[Dict[str, Any]], cmdline: Dict[str, Any], queries: Sequence[Tuple[str, Tuple[str, ...]]]) -> Any:
+    def _options_constructor(self) -> Any:
+        """Options(...) as the generated dataclass __init__ does it: fields and defaults read from the class body."""
+        ci = self.prog.cls("Options")
+        fields: List[Tuple[str, Any]] = []
+        for st in ci.node.body:
+            if not (isinstance(st, ast.AnnAssign) and isinstance(st.target, ast.Name)) or "ClassVar" in ast.unparse(st.annotation):
+                continue
+            v = st.value
+            if v is None:
+                fields.append((st.target.id, ...))
+            elif isinstance(v, ast.Call) and ast.unparse(v.func).endswith("field"):
+                kws = {k.arg: k.value for k in v.keywords}
+                if "default_factory" in kws and isinstance(kws["default_factory"], ast.Name) and kws["default_factory"].id in ("dict", "list", "set"):
+                    fields.append((st.target.id, {"dict": dict, "list": list, "set": set}[kws["default_factory"].id]))
+                elif "default" in kws:
+                    fields.append((st.target.id, ("const", ast.literal_eval(kws["default"]))))
+                else:
+                    raise AnchorError(f"Options.{st.target.id}: field() without a default the model understands")
+            else:
+                fields.append((st.target.id, ("const", ast.literal_eval(v))))
+
+        def construct(*args: Any, **kwargs: Any) -> Obj:
+            vals: Dict[str, Any] = {}
+            for (name, _), a in zip(fields, args):
+                vals[name] = a
+            vals.update(kwargs)
+            for name, d in fields:
+                if name in vals:
+                    continue
+                if d is ...:
+                    raise ModelError(f"Options constructed without {name}")
+                vals[name] = d[1] if isinstance(d, tuple) else d()
+            return Obj("Options", **vals)
+
+        return construct
+
+    def effective(self, files: Sequence[Dict[str, Any]], cmdline: Dict[str, Any], queries: Sequence[Tuple[str, Tuple[str, ...]]], enabled_queries: bool = False) -> Any:
         """files[0] is the main file; file i names file i+1 in its extend_config key
         (placed where the dict literal puts it).  Returns {query: value} or ("error", kind)."""
         reg = self.registry()
@@ -102,12 +141,20 @@ class ConfigModel:
         tomli = Obj("tomli", load=load)
         config_option = Obj("ConfigOptionCls", registry=reg)
         options_cls = Obj("OptionsCls")
-        options_cls._attrs["__call__"] = lambda options, module_path=(): Obj("Options", options=options, module_path=module_path)
+        options_cls._attrs["__call__"] = self._options_constructor()
 
         def isinstance_hook(v: Any, cls: str) -> Optional[bool]:
             return None
 
+        def dc_replace(args: List[Any], kwargs: Any = None) -> Any:
+            src = args[0]
+            if not (isinstance(src, Obj) and src._kind == "Options"):
+                raise AnchorError("configuration model: dataclasses.replace on something other than Options")
+            return Obj("Options", **{**src._attrs, **(kwargs or {})})  # a new object with the same field values (references are shared)
+
+        dc_replace.wants_kwargs = True  # type: ignore[attr-defined]
         funcs = {
+            "replace": dc_replace,
             "get_all_error_codes": lambda args: frozenset(ERROR_CODES),
             "InvalidConfigOption": lambda args: Obj("InvalidConfigOption", message=str(args[0]) if args else ""),
         }
@@ -124,14 +171,33 @@ class ConfigModel:
             return NotImplemented
 
         env_globals["__binop__"] = path_div
-        instances = [reg[k].get("__call__", None)(v, from_command_line=True) for k, v in cmdline.items()]
+
+        def checker(args: List[Any], kwargs: Any = None) -> Any:
+            return Obj("Checker", raw_options=(kwargs or {}).get("raw_options", args[0] if args else None))
+
+        checker.wants_kwargs = True  # type: ignore[attr-defined]
+        funcs["Checker"] = checker
+        funcs["patch_typing_overload"] = lambda args: None
         out: Dict[Any, Any] = {}
         try:
             it = Interp({}, {}, (), funcs, isinstance_hook, self.method_defs, self.module_defs, env_globals)
-            opts = it.call_def(self.method_defs[("OptionsCls", "from_option_list")], [options_cls, instances, paths[0]], self.module_defs["parse_config_file"])
-            for name, mod in queries:
-                o2 = it.call_def(self.method_defs[("Options", "for_module")], [opts, mod], self.module_defs["parse_config_file"])
-                out[(name, mod)] = it.call_def(self.method_defs[("Options", "get_value_for")], [o2, reg[name]], self.module_defs["parse_config_file"])
+            # the command line reaches Options the way the checker's entry point does it
+            kwargs = dict(cmdline)
+            kwargs["config_file"] = paths[0]
+            prepared = it.call_def(self.prepare, [Obj("NameCheckVisitorCls", config_filename=None), kwargs], self.prepare)
+            ck = prepared.get("checker") if isinstance(prepared, dict) else None
+            if not (isinstance(ck, Obj) and ck._kind == "Checker"):
+                raise AnchorError("prepare_constructor_kwargs did not build a Checker from the options in the model")
+            opts = ck.get("raw_options", None)
+            # the per-module views are created first and asked afterwards, as a run that keeps one visitor per file does
+            views = [it.call_def(self.method_defs[("Options", "for_module")], [opts, mod], self.module_defs["parse_config_file"]) for _, mod in queries]
+            for qi, (name, mod) in enumerate(queries):
+                o2 = views[qi]
+                if enabled_queries:
+                    # the question every shown error asks; asked in sequence on views of one Options object
+                    out[(qi, name, mod)] = it.call_def(self.method_defs[("Options", "is_error_code_enabled")], [o2, Obj("Error", name=name)], self.module_defs["parse_config_file"])
+                else:
+                    out[(name, mod)] = it.call_def(self.method_defs[("Options", "get_value_for")], [o2, reg[name]], self.module_defs["parse_config_file"])
         except PyRaise as pr:
             return ("error", pr.kind)
         except RecursionError:
